@@ -222,6 +222,25 @@ pub fn c04(ep: &EnergyPerformance) -> Option<String> {
 
 /// C13 on one result (k_exp = 0): rer == ren/tot in [0,1]; nesting 0 <= onst <= nrb <= rer; and the (assumed) contract of
 /// ren_onst_nrb: the two perimeter parts equal the sums the function documents
+/// the executable reading of spec/rel_c13.rs::c13_factors on the normalized regulatory factor set of a location
+pub fn c13_factor_shape(loc: &str) -> Value {
+    let w = crate::factors(loc);
+    let get = |c: Carrier, s: Source, d: Dest, st: Step| w.wdata.iter().find(|f| f.carrier == c && f.source == s && f.dest == d && f.step == st).map(|f| (f.ren, f.nren)).unwrap_or((0.0, 0.0));
+    let mut bad: Vec<String> = vec![];
+    if w.wdata.iter().any(|f| f.source == Source::COGEN) { bad.push("a factor with source COGEN".into()); }
+    let carriers: std::collections::HashSet<Carrier> = w.wdata.iter().map(|f| f.carrier).collect();
+    for c in carriers {
+        let g = get(c, Source::RED, Dest::SUMINISTRO, Step::A);
+        let i = get(c, Source::INSITU, Dest::SUMINISTRO, Step::A);
+        if g.0 < 0.0 || g.1 < 0.0 { bad.push(format!("{}: negative grid factor", c)); }
+        if i.0 < 0.0 || i.1 < 0.0 { bad.push(format!("{}: negative on-site delivery factor", c)); }
+        for d in [Dest::A_NEPB, Dest::A_RED] {
+            let e = get(c, Source::INSITU, d, Step::A);
+            if e.0 > i.0 || e.1 > i.1 { bad.push(format!("{}: export factor {:?} step A above the delivery factor", c, d)); }
+        }
+    }
+    json!({"hypothesis": "c13_factors (premise of thm_c13_range)", "loc": loc, "factors": w.wdata.len(), "holds": bad.is_empty(), "violations": bad})
+}
 pub fn c13(ep: &EnergyPerformance) -> Vec<(&'static str, String)> {
     let b = ep.balance.we.b;
     let tot = b.ren + b.nren;
@@ -357,6 +376,10 @@ pub fn check(pid: &str, seed: u64) -> Value {
     let mut failures: Vec<Value> = vec![];
     let mut known: Vec<Value> = vec![];
     let mut samples: Vec<Value> = vec![];
+    if pid == "C13" {
+        // hypothesis witness of thm_c13_range (unit rel): the shape c13_factors evaluated on the real regulatory tables - recorded, never a verdict
+        for loc in ["PENINSULA", "BALEARES", "CANARIAS", "CEUTAMELILLA"] { samples.push(c13_factor_shape(loc)); }
+    }
     let fail = |failures: &mut Vec<Value>, steps: &[B], k: f32, area: f32, lm: bool, what: String| {
         let clause = pid.to_string();
         if failures.iter().filter(|f| f["clause"] == clause.as_str()).count() < 4 {
